@@ -130,6 +130,7 @@ def gen_c06(rnd, tier):
                     cases.append((op, [('1' * n, sa), (randbits(rnd, n), sb)], ()))
                 cases.append(('and', [(randbits(rnd, n), sa), (randbits(rnd, n + 1), sb)], ()))
                 cases.append(('or', [(randbits(rnd, n + 8), sa), (randbits(rnd, n), sb)], ()))
+                cases.append(('xor', [(randbits(rnd, n + rnd.choice([1, 7, 9])), sa), (randbits(rnd, n), sb)], ()))
     for _ in range(2000 if T else 300):
         n = rnd.randint(0, 600)
         a = (randbits(rnd, n), rnd.choice(SIDES))
